@@ -23,6 +23,46 @@ fn bs(s: Shape) -> Box<Shape> {
     Box::new(s)
 }
 
+/// The public Ast for a shape, built by hand (not by the parser): every node
+/// takes its `offset` from `next_offset`.
+pub fn unstrip(s: &Shape, next_offset: &mut dyn FnMut() -> usize) -> Ast {
+    let offset = next_offset();
+    let bx = |x: &Shape, f: &mut dyn FnMut() -> usize| Box::new(unstrip(x, f));
+    match s {
+        Shape::Comparison(op, a, b) => {
+            let comparator = match op {
+                CmpOp::Eq => Comparator::Equal,
+                CmpOp::Ne => Comparator::NotEqual,
+                CmpOp::Lt => Comparator::LessThan,
+                CmpOp::Le => Comparator::LessThanEqual,
+                CmpOp::Gt => Comparator::GreaterThan,
+                CmpOp::Ge => Comparator::GreaterThanEqual,
+            };
+            Ast::Comparison { offset, comparator, lhs: bx(a, next_offset), rhs: bx(b, next_offset) }
+        }
+        Shape::Condition(p, t) => Ast::Condition { offset, predicate: bx(p, next_offset), then: bx(t, next_offset) },
+        Shape::Identity => Ast::Identity { offset },
+        Shape::Expref(a) => Ast::Expref { offset, ast: bx(a, next_offset) },
+        Shape::Flatten(a) => Ast::Flatten { offset, node: bx(a, next_offset) },
+        Shape::Function(name, args) => Ast::Function { offset, name: name.clone(), args: args.iter().map(|x| unstrip(x, next_offset)).collect() },
+        Shape::Field(name) => Ast::Field { offset, name: name.clone() },
+        Shape::Index(idx) => Ast::Index { offset, idx: *idx },
+        Shape::Literal(v) => Ast::Literal { offset, value: jmespath::Rcvar::new(Variable::from_json(&v.to_json()).unwrap_or(Variable::Null)) },
+        Shape::MultiList(es) => Ast::MultiList { offset, elements: es.iter().map(|x| unstrip(x, next_offset)).collect() },
+        Shape::MultiHash(kvs) => Ast::MultiHash {
+            offset,
+            elements: kvs.iter().map(|(k, x)| jmespath::ast::KeyValuePair { key: k.clone(), value: unstrip(x, next_offset) }).collect(),
+        },
+        Shape::Not(a) => Ast::Not { offset, node: bx(a, next_offset) },
+        Shape::Projection(a, b) => Ast::Projection { offset, lhs: bx(a, next_offset), rhs: bx(b, next_offset) },
+        Shape::ObjectValues(a) => Ast::ObjectValues { offset, node: bx(a, next_offset) },
+        Shape::And(a, b) => Ast::And { offset, lhs: bx(a, next_offset), rhs: bx(b, next_offset) },
+        Shape::Or(a, b) => Ast::Or { offset, lhs: bx(a, next_offset), rhs: bx(b, next_offset) },
+        Shape::Slice(a, b, c) => Ast::Slice { offset, start: *a, stop: *b, step: *c },
+        Shape::Subexpr(a, b) => Ast::Subexpr { offset, lhs: bx(a, next_offset), rhs: bx(b, next_offset) },
+    }
+}
+
 pub fn strip(a: &Ast) -> Shape {
     match a {
         Ast::Comparison { comparator, lhs, rhs, .. } => {
